@@ -182,3 +182,11 @@ Theorem produce_then_validate_refuted :
     events (r_d v) <> events (r_d (pr_run p)).
 Proof. exact produce_then_validate_refuted_all. Qed.
 Print Assumptions produce_then_validate_refuted.
+
+(* ------------------------------------------------------------------ C45 *)
+(* true by construction of a functional model; the weight of C45 is on the tie (digest of
+   every database column before/after real dry runs, repeated requests) *)
+Theorem dry_run_function : forall P hdr c txs st1 st2,
+  st1 = st2 -> dry_run P hdr c txs st1 = dry_run P hdr c txs st2.
+Proof. exact dry_run_function_all. Qed.
+Print Assumptions dry_run_function.
